@@ -818,3 +818,294 @@ def run(ctx: Context):
                     return (op == "is not" and {l, rr} == {"None", _v}) or (op == "truth" and l == _v)
                 for (t, w) in find_path_avoiding(cfg, lambda x, _n=n: x is _n, gate_edge=notnone2, kill=stores(nm[0])):
                     r.violation(fn, fn.loc(t.ast), "_populate_encprivkey is reached although the key was rejected", w)
+
+    # -- 10. every validated segment is delivered exactly once, in order ----------------
+    with ctx.rule("C10.10", "R1/R4/E7", "segment sequencing: the segment loop waits for the decode -> decrypt -> _set_segment chain, "
+                  "_set_segment writes the segment (unless verifying) and advances _current_segment by exactly one, nobody "
+                  "else moves _current_segment, _process_segment is run for _current_segment", expected=6) as r:
+        CUR = "self._current_segment"
+        ss = idx.func(RET + "._set_segment")
+        scfg = ss.cfg()
+        sn = FlowNorm(ss)
+        want = norm_src(CUR + " + 1")
+        adv = [n for n in scfg.nodes if n.kind not in ("entry", "exit", "raise") and CUR in node_stores(n)]
+        if not adv:
+            r.site(ss, None, "advance (absent)")     # reported by the exactly-once walk below
+        for n in adv:
+            r.site(ss, n.ast, "advance")
+            a = n.ast
+            val = None
+            if isinstance(a, ast.AugAssign):
+                tgt = ast.Attribute(value=a.target.value, attr=a.target.attr, ctx=ast.Load()) \
+                    if isinstance(a.target, ast.Attribute) else None
+                if tgt is not None:
+                    val = ast.fix_missing_locations(ast.copy_location(ast.BinOp(left=tgt, op=a.op, right=a.value), a))
+            elif isinstance(a, ast.Assign) and len(a.targets) == 1 and attr_path(a.targets[0]) == CUR:
+                val = a.value
+            got = sn.norm(n, val) if val is not None else "?"
+            r.require(got == want, ss, ss.loc(a), "_set_segment moves _current_segment to %s, not to the next segment: segments "
+                      "would be skipped or delivered again" % got)
+
+        # exactly one advance on every normal path through _set_segment
+        def tr_adv(m, lab, nxt, st):
+            if lab == "exc":
+                return None
+            if any(m is x for x in adv):
+                st = min(st + 1, 2)
+            return st
+        visited, parent = explore(scfg, 0, tr_adv)
+        r.count(len(visited))
+        for (nid, st) in sorted(visited):
+            if scfg.nodes[nid].kind == "exit" and st != 1:
+                w = witness(scfg, parent, (nid, st))
+                r.violation(ss, ss.loc(), "_set_segment returns having advanced _current_segment %s: the segment loop would %s "
+                            "(path: %s)" % ("more than once" if st else "not at all",
+                                            "skip a segment" if st else "fetch and deliver the same segment again", w.brief()), w)
+                break
+
+        # the segment reaches the consumer on every non-verify path
+        def wrote(m):
+            return any(call_name(c).endswith("_consumer.write") for c in node_calls(m))
+        if not scfg.find(wrote):
+            raise AnchorVanished("consumer.write in _set_segment")
+        r.site(ss, None, "write unless verify")
+
+        def tr_w(m, lab, nxt, st):
+            if lab == "exc":
+                return None
+            if st or wrote(m) or _fact(sn, m, lab)[:2] == ("truth", "self._verify"):
+                return True
+            return False
+        visited, parent = explore(scfg, False, tr_w)
+        for (nid, st) in sorted(visited, key=lambda x: (x[0], x[1])):
+            if scfg.nodes[nid].kind == "exit" and not st:
+                w = witness(scfg, parent, (nid, st))
+                r.violation(ss, ss.loc(), "_set_segment can return without writing the segment to the consumer although this is "
+                            "not a verify run: the read would succeed with bytes missing (path: %s)" % w.brief(), w)
+                break
+
+        # who may move _current_segment
+        k = 0
+        for (f, nd) in cg.attr_stores("_current_segment"):
+            if f.cls is None or f.cls.name != "Retrieve":
+                if attr_path(nd.value) == "self":
+                    continue            # another class's own counter (Publish)
+            k += 1
+            r.site(f, nd, "store _current_segment")
+            if f.qual == ss.qual:
+                continue
+            if f.qual == "allmydata." + RET + "._setup_encoding_parameters":
+                a = _assign_of(f, nd)
+                r.require(a is not None and norm_plain(a.value) == "self._start_segment", f, f.loc(nd),
+                          "the download does not start at _start_segment (%s)" % (src(f, a.value) if a is not None else "?"))
+                continue
+            r.violation(f, f.loc(nd), "%s moves Retrieve._current_segment: a segment would be skipped or delivered twice" % short(f))
+        if k < 2:
+            raise AnchorVanished("stores of Retrieve._current_segment")
+
+        # the loop processes the current segment
+        np_ = 0
+        for (f, c, is_call) in _uses_everywhere(idx, "_process_segment", "allmydata.mutable.retrieve"):
+            np_ += 1
+            r.site(f, c, "_process_segment")
+            r.require(is_call and len(c.args) == 1 and not c.keywords and norm_plain(c.args[0]) == CUR, f, f.loc(c),
+                      "%s runs _process_segment for %s, not for _current_segment" % (
+                          short(f), src(f, c.args[0]) if is_call and c.args else "?"))
+        if not np_:
+            raise AnchorVanished("no call of Retrieve._process_segment")
+
+        # _maybe_decode_and_decrypt_segment hands the chain back, so that loop() continues only after _set_segment ran
+        md = idx.func(RET + "._maybe_decode_and_decrypt_segment")
+        mcfg = md.cfg()
+        dvars = {attr_path(t) for n in func_own_nodes(md) if isinstance(n, ast.Assign)
+                 and contains_call(n.value, "_decode_blocks") for t in n.targets}
+        dvars.discard(None)
+        if len(dvars) != 1:
+            raise AnchorVanished("decode Deferred in _maybe_decode_and_decrypt_segment")
+        dv = dvars.pop()
+        mn = FlowNorm(md)
+
+        def chain_root(e):
+            while isinstance(e, ast.Call) and isinstance(e.func, ast.Attribute) \
+                    and e.func.attr in ("addCallback", "addCallbacks", "addErrback", "addBoth"):
+                e = e.func.value
+            return e
+
+        def returns_chain(m):
+            if not is_return(m) or m.ast.value is None:
+                return False
+            root = chain_root(m.ast.value)
+            if attr_path(root) == dv:
+                return True
+            res = mn.resolve(m, root)
+            return res is not None and attr_path(chain_root(res)) == dv
+        r.site(md, None, "returns the chain")
+        for (s, w) in find_path_from_to_avoiding(mcfg, has_call("_decode_blocks"), returns_chain):
+            r.violation(md, md.loc(s.ast), "after starting the decode of a segment _maybe_decode_and_decrypt_segment can return "
+                        "without handing back the decode -> decrypt -> _set_segment Deferred: the loop would fetch the same "
+                        "segment again before it was written, and decode errors would be lost (path: %s)" % w.brief(), w)
+
+    # -- 11. what is written is the requested range of the decrypted segment -------------
+    with ctx.rule("C10.11", "R1", "_set_segment trims the tail only of the last requested segment (to a non-zero length) and "
+                  "the head only of the first one, does both whenever they apply, and blanks the segment only for a "
+                  "zero-length read", expected=3) as r:
+        ss = idx.func(RET + "._set_segment")
+        seg = first_positional_params(ss)[0]
+        scfg = ss.cfg()
+        sn = FlowNorm(ss)
+        CUR, LAST, START, RLEN = "self._current_segment", "self._last_segment", "self._start_segment", "self._read_length"
+
+        def wrote(m):
+            return any(call_name(c).endswith("_consumer.write") for c in node_calls(m))
+        wnodes = scfg.find(wrote)
+        if not wnodes:
+            raise AnchorVanished("consumer.write in _set_segment")
+        # nodes from which a write is still reachable
+        live = set()
+        work = [w.id for w in wnodes]
+        while work:
+            x = work.pop()
+            if x in live:
+                continue
+            live.add(x)
+            for (p, lab) in scfg.pred[x]:
+                if lab != "exc":
+                    work.append(p)
+
+        def seg_assign(m):
+            if m.kind != "stmt" or not isinstance(m.ast, ast.Assign) or m.id not in live or any(m is w for w in wnodes):
+                return None
+            if not any(attr_path(t) == seg for t in m.ast.targets):
+                return None
+            return m.ast.value
+        tails, heads, blanks = [], [], []
+        for m in scfg.nodes:
+            v = seg_assign(m)
+            if v is None:
+                continue
+            if isinstance(v, ast.Subscript) and isinstance(v.slice, ast.Slice) and attr_path(v.value) == seg and v.slice.step is None:
+                if v.slice.upper is not None:
+                    tails.append((m, v.slice.upper))
+                if v.slice.lower is not None:
+                    heads.append((m, v.slice.lower))
+            elif isinstance(v, ast.Constant):
+                blanks.append(m)
+            # anything else is C10.8's business (not a slice of the decrypted segment)
+
+        def is_seg(op, l, rr, other, ge_left):
+            """fact `CUR == other`, or the one-sided form that is equivalent because start <= CUR <= last"""
+            if op == "==" and {l, rr} == {CUR, other}:
+                return True
+            # canonical '<=' : l <= rr.   CUR >= last  is  last <= CUR ;  CUR <= start  is  CUR <= start
+            if op == "<=":
+                return (l, rr) == ((other, CUR) if ge_left else (CUR, other))
+            return False
+
+        def at_last(m, lab):
+            op, l, rr = _fact(sn, m, lab)
+            return is_seg(op, l, rr, LAST, True)
+
+        def at_start(m, lab):
+            op, l, rr = _fact(sn, m, lab)
+            return is_seg(op, l, rr, START, False)
+
+        def zero_fact(m, lab, needle):
+            """edge fact saying that an expression mentioning `needle` is zero"""
+            op, l, rr = _fact(sn, m, lab)
+            if op == "==" and "0" in (l, rr):
+                return needle in (rr if l == "0" else l)
+            return op == "false" and needle in (l or "")
+        if not scfg.find(lambda x: any(at_last(x, lb) for (_, lb) in scfg.succ[x.id])) or \
+                not scfg.find(lambda x: any(at_start(x, lb) for (_, lb) in scfg.succ[x.id])):
+            raise AnchorVanished("tests of _current_segment against _last_segment / _start_segment in _set_segment")
+        if not tails:
+            r.site(ss, None, "tail trim (absent)")      # reported by the completeness walk below
+        if not heads:
+            r.site(ss, None, "head trim (absent)")
+        for (m, up) in tails:
+            r.site(ss, m.ast, "tail trim")
+            for (t, w) in find_path_avoiding(scfg, lambda x, _m=m: x is _m, gate_edge=at_last, kill=stores_any({CUR, LAST})):
+                r.violation(ss, ss.loc(m.ast), "the tail of a segment is cut off (%s) although it may not be the last requested "
+                            "segment: bytes from the middle of the read would be dropped (path: %s)" % (src(ss, m.ast), w.brief()), w)
+            if isinstance(up, (ast.BoolOp, ast.IfExp)):
+                continue            # `x or None` style bounds: undecided
+            upn = sn.norm(m, up)
+
+            def nonzero(x, lab, _u=upn):
+                op, l, rr = _fact(sn, x, lab)
+                return (op == "!=" and {l, rr} == {_u, "0"}) or (op == "truth" and l == _u) or \
+                    (op == "<" and (l, rr) == ("0", _u))
+            for (t, w) in find_path_avoiding(scfg, lambda x, _m=m: x is _m, gate_edge=nonzero):
+                r.violation(ss, ss.loc(m.ast), "%s can run with a zero bound (the read ends on a segment boundary): the whole last "
+                            "segment would be dropped (path: %s)" % (src(ss, m.ast), w.brief()), w)
+        for (m, lo) in heads:
+            r.site(ss, m.ast, "head trim")
+            for (t, w) in find_path_avoiding(scfg, lambda x, _m=m: x is _m, gate_edge=at_start, kill=stores_any({CUR, START})):
+                r.violation(ss, ss.loc(m.ast), "the head of a segment is cut off (%s) although it may not be the first requested "
+                            "segment (path: %s)" % (src(ss, m.ast), w.brief()), w)
+        for m in blanks:
+            r.site(ss, m.ast, "blank")
+
+            def zero_len(x, lab):
+                op, l, rr = _fact(sn, x, lab)
+                return (op == "==" and {l, rr} == {RLEN, "0"}) or (op == "false" and l == RLEN)
+            for (t, w) in find_path_avoiding(scfg, lambda x, _m=m: x is _m, gate_edge=zero_len, kill=stores(RLEN)):
+                r.violation(ss, ss.loc(m.ast), "the decrypted segment is replaced by %s for a read that is not zero-length "
+                            "(path: %s)" % (src(ss, m.ast.value), w.brief()), w)
+        # completeness: on the way to the write, last segment => tail trimmed (unless the end is on a boundary),
+        # first segment => head trimmed (unless the offset is on a boundary)
+        tail_ids = {m.id for (m, _) in tails}
+        head_ids = {m.id for (m, _) in heads}
+
+        def eq_ne(m, lab, other):
+            """'T' / 'F' when the edge says CUR == other / CUR != other, else None"""
+            op, l, rr = _fact(sn, m, lab)
+            if {l, rr} == {CUR, other} and op in ("==", "!="):
+                return "T" if op == "==" else "F"
+            return None
+
+        def tr(m, lab, nxt, st):
+            if lab == "exc":
+                return None
+            need_t, need_h, kl, ks = st
+            if m.kind in ("entry", "exit", "raise"):
+                return st
+            sts = node_stores(m)
+            if sts & {CUR, LAST}:
+                kl = "?"
+            if sts & {CUR, START}:
+                ks = "?"
+            # contradictory repeated tests of the same equality are not paths
+            e = eq_ne(m, lab, LAST)
+            if e:
+                if kl not in ("?", e):
+                    return None
+                kl = e
+            e = eq_ne(m, lab, START)
+            if e:
+                if ks not in ("?", e):
+                    return None
+                ks = e
+            if at_last(m, lab):
+                need_t = "need" if need_t == "no" else need_t
+            if at_start(m, lab):
+                need_h = "need" if need_h == "no" else need_h
+            if m.id in tail_ids or zero_fact(m, lab, RLEN):
+                need_t = "done"
+            if m.id in head_ids or zero_fact(m, lab, "self._offset"):
+                need_h = "done"
+            return (need_t, need_h, kl, ks)
+        visited, parent = explore(scfg, ("no", "no", "?", "?"), tr)
+        r.count(len(visited))
+        r.site(ss, None, "trims applied")
+        told = set()
+        for (nid, st) in sorted(visited):
+            if not any(scfg.nodes[nid] is w for w in wnodes):
+                continue
+            for i, what in ((0, "last"), (1, "first")):
+                if st[i] == "need" and what not in told:
+                    told.add(what)
+                    w = witness(scfg, parent, (nid, st))
+                    r.violation(ss, ss.loc(scfg.nodes[nid].ast), "the %s requested segment reaches the consumer without its %s being "
+                                "trimmed to the requested range: bytes outside the read would be delivered (path: %s)" % (
+                                    what, "tail" if i == 0 else "head", w.brief()), w)
